@@ -281,6 +281,10 @@ extract_args(vector_string &args, const string &expr, size_t &p) const {
             p++;
           }
         }
+        if (p >= expr.size()) {
+          // Unterminated quote; don't step past the end of the string.
+          break;
+        }
       }
       else if (expr[p] == '(') {
         ++paren_level;
